@@ -280,7 +280,11 @@ def options_help(t):
     blocks = doc_blocks(t["doc"]) if t["doc"] is not None else []
     d = blocks[0] if blocks else None
     h = blocks[1] if len(blocks) > 1 and blocks[1] != "" else None
-    rest = "\n".join(blocks[2:])
+    rest = ""
+    for b in blocks[2:]:            # LineIter::rest: a newline only between what is already there and the next block
+        if rest != "":
+            rest += "\n"
+        rest += b
     f = rest if rest != "" else None
     return (ann.get("descr") or d, ann.get("header") or h, ann.get("footer") or f)
 
@@ -386,6 +390,10 @@ class C17(Property):
                     q.append("(kebab %s_ic %s)" % (t["name"], gen.hx(t["inner"]["name"])))
                 q.append("(grouphelp %s_gh %s %s)" % (t["name"], "-" if t["inner"]["doc"] is None else gen.hx(t["inner"]["doc"]),
                                                      "-" if t["inner"]["group_help"] is None else gen.hx(t["inner"]["group_help"])))
+            # descr / header / footer of the OptionParser: the doc comment's blocks and the explicit annotations (Model/Derive.v)
+            ann = t.get("ann") or {}
+            o = lambda v: "-" if v is None else gen.hx(v)
+            q.append("(optionshelp %s_oh %s %s %s %s)" % (t["name"], o(t["doc"]), o(ann.get("descr")), o(ann.get("header")), o(ann.get("footer"))))
             for gname, fs in groups:
                 for fi, f in enumerate(fs):
                     fid = "%s_%s_%d" % (t["name"], gname, fi)
@@ -530,7 +538,12 @@ class C17(Property):
                         h += "    let alt%d = %s;\n" % (vi, inner)
                     alts.append("alt%d" % vi)
                 body = "construct!([%s])" % ", ".join(alts)
-            h += "    %s.to_options()%s\n}\n" % (body, options_tail(t))
+            # the hand-written equivalent takes its descr / header / footer from the extracted model; the Python transcription
+            # (options_help above) must say the same
+            oh = self.plans[t["name"] + "_oh"]
+            parts = [None if x == "-" else gen.unhx(x).decode() for x in oh[1:4]]
+            assert oh[0] == "OPTHELP" and tuple(parts) == options_help(t), (oh, options_help(t))
+            h += "    %s.to_options()%s\n}\n" % (body, "".join(".%s(%s)" % (k, rs_str(v)) for k, v in zip(("descr", "header", "footer"), parts) if v is not None))
             src.append(h)
         # dispatcher
         src.append(RUNNER_HEAD)
